@@ -80,6 +80,10 @@ impl<F: Fam> Ctx<F> {
                 }
                 self.resolve_set(s, KeySel::Existing(i))
             }
+            KeySel::NextMoved(i) => match self.sets[s].set.verif_cursor_nth(i as usize % 20).map(|k| k.k()) {
+                Some(k) => k,
+                None => self.resolve_set(s, KeySel::InOld((i as u16) << 8)),
+            },
             KeySel::Any(k) => k % self.universe,
             KeySel::Absent(k) => {
                 let mut k = k % self.universe;
